@@ -185,6 +185,43 @@ Fixpoint load_class (ks : list klass) (oracle : list bool) (fn : str) (i : nat) 
     end
   end.
 
+(* loadsave.save: img.to_filename(filename); on ImageFileError the implicit conversions.
+   `suffixes` = loadsave._compressed_suffixes; conv = for every class of all_image_classes whether
+   klass.from_image(img) succeeds (external).  Returns the class that writes the file (None =
+   ImageFileError 'Cannot work out file type'; a failing from_image of every candidate re-raises). *)
+Definition N1I : str := [78;105;102;116;105;49;73;109;97;103;101].   (* "Nifti1Image" *)
+Definition N1P : str := [78;105;102;116;105;49;80;97;105;114].       (* "Nifti1Pair" *)
+Definition N2I : str := [78;105;102;116;105;50;73;109;97;103;101].   (* "Nifti2Image" *)
+Definition N2P : str := [78;105;102;116;105;50;80;97;105;114].       (* "Nifti2Pair" *)
+Definition X_IMG : str := [46;105;109;103].
+Definition X_HDR : str := [46;104;100;114].
+Definition X_NII : str := [46;110;105;105].
+
+Definition find_class (ks : list klass) (nm : str) : option klass :=
+  find (fun k => str_eqb (kname k) nm) ks.
+
+(* the ladder, a decision table over (type(img), lext) *)
+Definition save_ladder (ks : list klass) (k : klass) (lext : str) (conv : list bool) : option klass :=
+  let is nm := str_eqb (kname k) nm in
+  let pair_ext := str_eqb lext X_IMG || str_eqb lext X_HDR in
+  if is N1I && pair_ext then find_class ks N1P
+  else if is N2I && pair_ext then find_class ks N2P
+  else if is N1P && str_eqb lext X_NII then find_class ks N1I
+  else if is N2P && str_eqb lext X_NII then find_class ks N2I
+  else match find (fun kc => existsb (str_eqb lext) (vexts (fst kc)) && snd kc) (combine ks conv) with
+       | Some (k', _) => Some k'
+       | None => None
+       end.
+
+Definition is_ok {A} (r : res A) : bool := match r with Ok _ => true | Err _ => false end.
+
+Definition save_class (ks : list klass) (suffixes : list str) (k : klass) (fn : str) (conv : list bool)
+  : option klass :=
+  if is_ok (filespec_to_file_map k fn) then Some k
+  else
+    let '(_, ext, _) := splitext_addext false suffixes fn in
+    save_ladder ks k (lower ext) conv.
+
 (* Opener._get_opener_argnames with compress_ext_icase: index of the key of
    compress_ext_map (None key skipped) whose lower() equals the lowered extension *)
 Fixpoint find_index {A} (f : A -> bool) (l : list A) (i : nat) : option nat :=
